@@ -62,6 +62,8 @@ impl SharedHistory {
         let snapshot = report.into_snapshot(
             exceptions, &mut metrics,
         );
+        #[cfg(feature = "verif-hooks")]
+        let snapshot = crate::verif::override_snapshot().unwrap_or(snapshot);
 
         let (current, serial) = {
             let read = self.read();
@@ -136,6 +138,26 @@ impl SharedHistory {
                 Some(now)
             }
         };
+    }
+}
+
+
+#[cfg(feature = "verif-hooks")]
+impl SharedHistory {
+    /// Makes the history continue from the given serial number.
+    ///
+    /// Places an empty delta with the given target serial at the front,
+    /// which is the state of a history whose last update produced that
+    /// serial.
+    pub fn verif_seed_serial(&self, serial: Serial) {
+        self.write().deltas.push_front(
+            Arc::new(PayloadDelta::empty(serial))
+        );
+    }
+
+    /// Returns the number of currently retained deltas.
+    pub fn verif_retained(&self) -> usize {
+        self.read().deltas.len()
     }
 }
 
